@@ -329,6 +329,12 @@ fn first_zeros_aligned(v: u64, order: usize) -> Option<(u64, usize)> {
     }
 }
 
+/// Verification access to the row search
+#[cfg(feature = "verif")]
+pub fn verif_first_zeros_aligned(v: u64, order: usize) -> Option<(u64, usize)> {
+    first_zeros_aligned(v, order)
+}
+
 #[cfg(test)]
 mod test {
     use crate::HUGE_ORDER;
